@@ -1,0 +1,6 @@
+//go:build !verif
+// +build !verif
+
+package template
+
+func verifHook(point, name string) {}
